@@ -201,6 +201,8 @@ def run_case(case):
             sp = script[k] if k < len(script) else {"awaits": [], "end": "ret", "on_cancel": []}
             loops[tid]["in_run"] = True
             rec("enter", tid)
+            if sp.get("spawn"):              # the run logic spawns a helper task and registers it in self.tasks
+                register(self, sp["spawn"])
             reactions = list(sp.get("on_cancel", []))
 
             def leave(o):
@@ -295,6 +297,22 @@ def run_case(case):
             raise ProbeBase(tid)
         if o == "cancelled":
             raise asyncio.CancelledError()
+
+    def register(actor, spec):
+        """Spawn an extra task and register it the documented way: through the PUBLIC `tasks` property
+        (`self.tasks.add(task)`); spec["via"] == "_tasks" uses the private set instead."""
+        counters["tid"] += 1
+        tid = counters["tid"]
+        t = asyncio.create_task(extra_task(tid, spec))
+        tid_of[t] = tid
+        task_of[tid] = t
+        extras[tid] = {"logged": False}
+        flush()
+        if spec.get("via") == "_tasks":
+            actor._tasks.add(t)
+        else:
+            actor.tasks.add(t)
+        rec("add", actor.idx, tid, spec.get("via", "tasks"))
 
     async def rec_wait(fs, *, timeout=None, return_when=asyncio.ALL_COMPLETED):
         fs = set(fs)
@@ -437,15 +455,7 @@ def run_case(case):
             elif kind == "wait":
                 harness_tasks.append(asyncio.create_task(do_call(actors[op[2]].wait, "wait", op[2], op[3] if len(op) > 3 else None)))
             elif kind == "add":
-                a = actors[op[2]]
-                counters["tid"] += 1
-                tid = counters["tid"]
-                t = asyncio.create_task(extra_task(tid, op[3]))
-                tid_of[t] = tid
-                task_of[tid] = t
-                extras[tid] = {"logged": False}
-                a._tasks.add(t)
-                rec("add", op[2], tid)
+                register(actors[op[2]], op[3])
             elif kind == "setlimit":      # the restart budget is changed while the actor exists
                 flush()
                 actors[op[2]]._restart_limit = op[3]
@@ -473,7 +483,16 @@ def run_case(case):
                 async def do_run(rid=rid, info=info, sel=sel):
                     ctx[asyncio.current_task()] = ("run", rid, info)
                     rec("runbegin", rid, [a.idx for a in sel])
-                    await sdk_run(*sel)
+                    try:
+                        await sdk_run(*sel)
+                    except asyncio.CancelledError:
+                        raise
+                    except BaseException as exc:     # pylint: disable=broad-except
+                        rec("runerr", rid, type(exc).__name__)
+                        return
+                    if not info["called"]:           # run() never blocked (e.g. the empty group): it waited on nothing
+                        info["called"] = True
+                        rec("runcall", rid, [], sorted(info["sel"]))
                     rec("runret", rid, [a.is_running for a in sel])
                 harness_tasks.append(asyncio.create_task(do_run()))
         # ---- drain: let every script play out, then stop every actor and wait for the calls
@@ -673,11 +692,14 @@ def gen_run_script(rng, allow_self=True):
     end = rng.choice(["ret", "exc", "exc", "exc", "base", "cancel"] + (["selfcancel_exc"] if allow_self else []))
     on_cancel = [rng.choice(["prop", "prop", "prop", "ret", "exc", "exc", "base", "cont", "slowprop", "slowexc", "slowbase", "slowret"])
                  for _ in range(rng.choice([0, 0, 1, 2]))]
-    return {"awaits": awaits, "end": end, "on_cancel": on_cancel}
+    out = {"awaits": awaits, "end": end, "on_cancel": on_cancel}
+    if rng.random() < 0.15:       # the run logic spawns a helper task and registers it through self.tasks
+        out["spawn"] = {**gen_extra(rng), "via": "tasks"}
+    return out
 
 
 def gen_extra(rng):
-    return {"awaits": [rng.choice([0, 10, 500, 1500, 4000]) for _ in range(rng.choice([1, 1, 2]))],
+    return {"via": rng.choice(["tasks", "tasks", "tasks", "_tasks"]), "awaits": [rng.choice([0, 10, 500, 1500, 4000]) for _ in range(rng.choice([1, 1, 2]))],
             "end": rng.choice(["ret", "ret", "exc", "base"]),
             "on_cancel": [rng.choice(["prop", "prop", "ret", "exc", "base", "cont", "slowprop", "slowexc", "slowbase", "slowret"])
                           for _ in range(rng.choice([0, 1, 1]))]}
@@ -740,7 +762,7 @@ def gen_case(rng):
         elif k == "add":
             ops.append([t, "add", a, gen_extra(rng)])
         elif k == "run":
-            sel = sorted(rng.sample(range(nact), rng.randint(1, nact)))
+            sel = sorted(rng.sample(range(nact), rng.randint(0, nact)))      # the empty group included
             ops.append([t, "run", sel])
         elif k == "yield":
             ops.append([t, "yield", rng.choice([1, 2, 3])])
@@ -894,6 +916,19 @@ def boundary_cases():
          "ops": [[0, "start", 0]], "settle_ms": 2000},
         {"actors": [{**A(1, [S([10], "exc")] * 5 + [S([10], "ret")]), "delay": {"how": "instance", "ms": 250}}],
          "ops": [[0, "start", 0], [100, "setlimit", 0, 3], [600, "setlimit", 0, None]], "settle_ms": 5000},
+        # run() over the empty group, over one actor, over actors that already finished
+        {"actors": [A(None, [S([100], "ret")])], "ops": [[0, "run", []]], "settle_ms": 100},
+        {"actors": [A(None, [S([100], "ret")])], "ops": [[0, "start", 0], [50, "run", []], [500, "run", [0]], [900, "run", []]], "settle_ms": 500},
+        {"actors": [A(0, [S([100], "exc")]), A(None, [S([50], "ret")])], "ops": [[0, "start", 0], [0, "start", 1], [500, "run", [0, 1]]], "settle_ms": 500},
+        # extra tasks registered through the PUBLIC tasks property: before start, after start, from inside _run
+        {"actors": [A(None, [S([5000], "ret")])],
+         "ops": [[0, "add", 0, {"via": "tasks", "awaits": [1000], "end": "ret", "on_cancel": ["slowexc"]}], [10, "start", 0], [50, "stop", 0]], "settle_ms": 500},
+        {"actors": [A(None, [S([5000], "ret")])],
+         "ops": [[0, "start", 0], [10, "add", 0, {"via": "tasks", "awaits": [1000], "end": "exc", "on_cancel": ["slowbase"]}], [50, "stop", 0]], "settle_ms": 500},
+        {"actors": [A(None, [{**S([5000], "ret"), "spawn": {"via": "tasks", "awaits": [3000], "end": "ret", "on_cancel": ["slowexc"]}}])],
+         "ops": [[0, "start", 0], [50, "stop", 0]], "settle_ms": 500},
+        {"actors": [A(None, [{**S([100], "ret"), "spawn": {"via": "tasks", "awaits": [700], "end": "exc", "on_cancel": []}}])],
+         "ops": [[0, "start", 0], [10, "wait", 0]], "settle_ms": 1500},
         # default restart limit (unbounded)
         {"actors": [A("default", [S([], "exc")] * 6 + [S([], "ret")])], "ops": [[0, "start", 0]], "settle_ms": 15000},
     ]
@@ -984,6 +1019,9 @@ class ActorStream(Stream):
             d = a.get("delay")
             out.append("delay=" + ("base" if not d or d["how"] == "base" else f"{d['how']}:{d['ms']}ms"))
         kinds = [e[1] for e in log]
+        for i_, e in enumerate(log):
+            if e[1] == "add" and i_ > 0 and log[i_ - 1][1] == "enter":
+                out.append("task_registered_from_inside_run")
         for e in log:
             if e[1] == "cawcall":
                 out.append("caw_on_" + ("done_task" if e[5] else ("task_already_being_cancelled" if e[6] else "running_task")))
@@ -991,6 +1029,10 @@ class ActorStream(Stream):
                 out.append("with_body_" + e[7])
                 if e[8]:
                     out.append("with_exit_cancelled")
+            if e[1] == "add":
+                out.append("task_registered_via_" + (e[4] if len(e) > 4 else "tasks"))
+            if e[1] == "runbegin":
+                out.append("run_over_empty_group" if not e[3] else "run_over_nonempty_group")
             if e[1] == "abort":
                 out.append("awaiter_cancelled_while_tasks_" + ("done" if all(e[3]) else "still_running"))
             if e[1] == "opdone" and e[7]:
